@@ -111,6 +111,16 @@ func main() {
 			fatal("usage: askreentr dl-stress <histories> <seed> <trace> <port>")
 		}
 		dlStress(atoi(args[0]), int64(atoi(args[1])), args[2], atoi(args[3]))
+	case "req-replay":
+		if len(args) != 3 {
+			fatal("usage: askreentr req-replay <behaviours> <trace> <maxInFlight>")
+		}
+		reqReplay(args[0], args[1], atoi(args[2]))
+	case "req-stress":
+		if len(args) != 4 {
+			fatal("usage: askreentr req-stress <histories> <seed> <trace> <maxInFlight>")
+		}
+		reqStress(atoi(args[0]), int64(atoi(args[1])), args[2], atoi(args[3]))
 	default:
 		fatal("unknown subcommand", os.Args[1])
 	}
